@@ -31,7 +31,7 @@ def classify(stderr, returncode):
     else:
         m = re.search(r"([^\s:]+):(\d+):\d+: runtime error: (.*)", stderr)
         if m:
-            kind = "ubsan:" + re.sub(r"[-0-9.e+]+", "#", m.group(3))[:60]
+            kind = "ubsan:" + re.sub(r"\b\d[\d.]*\b", "#", m.group(3))[:60]
     if kind is None and returncode is not None and returncode < 0:
         kind = "signal:%d" % (-returncode)
     if kind is None and "terminate called" in stderr:
